@@ -355,15 +355,28 @@ def jn(x):
     return json.loads(json.dumps(x, default=str))
 
 
-def run_history(ops, ref_steps=4000, immediate=False):
+def run_history(ops, ref_steps=4000, immediate=False, skip_undecided=False):
     """returns (n_ops_decided, reference observations, impl observations, failure or None, refworld)"""
     ref = RefWorld(ref_steps, immediate)
     im = ImplWorld(10 * ref_steps + 500)
     robs, iobs = [], []
     for i, op in enumerate(ops):
+        for it in ref.eng.values():
+            it.steps = 0          # budgets are per operation
+        for yp in im.eng.values():
+            yp._n = 0
         try:
             r = ref.do(op)
         except Stop:
+            if skip_undecided and op[0] in ('run', 'step'):
+                # side-effect-free query that the reference cannot decide (unbounded / unspecified): skip it on
+                # both sides and go on with the history
+                if op[0] == 'step':
+                    ref.op_close(op[1])
+                    im.op_close(op[1])
+                robs.append('skipped')
+                iobs.append('skipped')
+                continue
             return i, robs, iobs, None, ref
         keys = sorted(set(ref.keys.get(op[1], ())) | set(DB_KEYS)) if op[0] == 'db' else ()
         try:
